@@ -138,6 +138,10 @@ def monitor_stream(tier="quick", seed=0):
         (1, 2),
         np.float32(0.25),
         np.int64(7),
+        np.int64(2**53 + 1),
+        np.uint8(200),
+        np.bool_(True),
+        [np.int32(3), {"k": np.int64(-(2**62))}],
         float("nan"),
         float("inf"),
         True,
@@ -180,7 +184,8 @@ def monitor_stream(tier="quick", seed=0):
                 continue
             want = [norm(r) for r in reps]
             user = [{k: norm(v) for k, v in g.items() if not k.startswith("st_")} for g in got]
-            if user != want:
+            # plain numbers keep their kind: 7 must not arrive as 7.0, True not as 1.0 (json text distinguishes them)
+            if user != want or _json.dumps(user, sort_keys=True) != _json.dumps(want, sort_keys=True):
                 viol.append({"clause": "dictionaries-unchanged-in-order", "reports": repr(reps)[:200], "noise": nz, "parsed": repr(user)[:200]})
                 continue
             iters = [g.get("st_worker_iter") for g in got]
@@ -204,4 +209,4 @@ def monitor_stream(tier="quick", seed=0):
 
 from pyvc.native import native_monitor  # noqa: E402
 
-EXTRA_CHECKS = [native_monitor("C18", "contracts.c18", "monitor_stream", "text-channel", "100 report sets built from 20 hostile values, 3 (5) noise chunks, with / without trailing newline")]
+EXTRA_CHECKS = [native_monitor("C18", "contracts.c18", "monitor_stream", "text-channel", "100 report sets built from 24 hostile values, 3 (5) noise chunks, with / without trailing newline")]
